@@ -17,6 +17,7 @@ import (
 	"net/http"
 	"net/url"
 	"strings"
+	"sync"
 
 	"github.com/containerd/containerd/v2/core/remotes/docker"
 	"github.com/containerd/containerd/v2/pkg/reference"
@@ -99,6 +100,9 @@ type Case struct {
 	Auth    Auth      `json:"auth"`
 	Script  []Resp    `json:"script"`
 	Ops     []Op      `json:"ops"`
+	// Storm > 0: after everything else, 4 goroutines call fetch/check really concurrently (no scheduler), answers drawn
+	// from a generator seeded with Storm; oracle only (and the target of the race detector in the race tier)
+	Storm uint64 `json:"storm"`
 	// observed
 	ResReqs   []Req      `json:"res_reqs,omitempty"`
 	Target    *[3]string `json:"target,omitempty"`
@@ -122,6 +126,9 @@ type world struct {
 	curToks   []Resp
 	nclients  int
 	stats     [3]int
+	storm     bool // free-running phase: requests arrive concurrently
+	stormRng  *hx.Rng
+	mu        sync.Mutex
 }
 
 type thread struct {
@@ -354,7 +361,17 @@ func azOf(w *world, req *http.Request) string {
 // RoundTrip: registries and redirect locations
 func (w *world) RoundTrip(req *http.Request) (*http.Response, error) {
 	var r Resp
-	if w.cur != nil {
+	if w.storm {
+		w.mu.Lock()
+		defer w.mu.Unlock()
+		r = genResp(w.stormRng, len(w.hostNames), "storm")
+		if strings.HasPrefix(r.Chal, "bearer") {
+			// no token fetches in the free-running phase: containerd's authHandler.doBearerAuth itself has a data race
+			// (expirationTime of a token slot is written by the fetching goroutine outside the handler lock while
+			// waiters read it under the lock), which would mask races of the code under test in the race tier
+			r.Chal = "basic"
+		}
+	} else if w.cur != nil {
 		t := w.cur
 		t.parked <- "rt"
 		r = <-t.resume
@@ -432,7 +449,13 @@ type tokRT struct {
 func (t *tokRT) RoundTrip(req *http.Request) (*http.Response, error) {
 	w := t.w
 	var r Resp
+	if w.storm {
+		w.mu.Lock()
+		defer w.mu.Unlock()
+	}
 	switch {
+	case w.storm:
+		r = Resp{Code: 200, WF: !w.stormRng.Chance(1, 6)}
 	case w.cur != nil && len(w.curToks) > 0:
 		r, w.curToks = w.curToks[0], w.curToks[1:]
 	case w.cur == nil && len(w.script) > 0:
@@ -506,7 +529,7 @@ func (t *tokRT) RoundTrip(req *http.Request) (*http.Response, error) {
 }
 
 func (w *world) hook(where string) {
-	if w.cur == nil {
+	if w.storm || w.cur == nil {
 		return
 	}
 	t := w.cur
@@ -698,6 +721,26 @@ func exec(c Case, g *generator) (Case, []string) {
 	w.script = []Resp{{Code: 401, Chal: "bearer:1"}, {Code: 200, WF: true}, {Code: 206, WF: true}}
 	_ = vf.Check()
 	w.script = nil
+	if c.Storm > 0 {
+		w.stormRng = hx.NewRng(c.Storm)
+		w.storm = true
+		var wg sync.WaitGroup
+		for gi := 0; gi < 4; gi++ {
+			wg.Add(1)
+			go func(gi int) {
+				defer wg.Done()
+				for i := 0; i < 6; i++ {
+					if (gi+i)%3 == 0 {
+						_ = vf.Check()
+					} else {
+						_ = vf.Fetch(context.Background(), [][2]int64{{0, 1}}, true)
+					}
+				}
+			}(gi)
+		}
+		wg.Wait()
+		w.storm = false
+	}
 	c.AuthStats = w.stats
 	return c, w.problems
 }
@@ -735,6 +778,8 @@ func genResp(r *hx.Rng, nhosts int, bias string) Resp {
 	switch bias {
 	case "resolve":
 		k = r.Pick(40, 8, 28, 4, 4, 10, 3, 2, 3)
+	case "storm": // many expiries and refreshes answered both ways
+		k = r.Pick(20, 25, 15, 25, 3, 8, 1, 1, 2)
 	default:
 		k = r.Pick(24, 24, 11, 16, 6, 10, 3, 3, 3)
 	}
@@ -897,6 +942,9 @@ func gen(r *hx.Rng) (Case, *generator) {
 	c.Auth = genAuth(r, names)
 	for i := r.Intn(9); i > 0; i-- {
 		c.Script = append(c.Script, genResp(r, nh, "resolve"))
+	}
+	if r.Chance(1, 2) {
+		c.Storm = r.U64() | 1
 	}
 	return c, &generator{r: r, nhosts: nh, left: r.Range(4, 40)}
 }
@@ -1121,6 +1169,9 @@ func main() {
 		if c.HostsErr {
 			ctx.Count("hosts.error")
 		}
+		if c.Storm > 0 {
+			ctx.Count("storm")
+		}
 		redirected, refreshed, withHdr, withAz := false, false, false, false
 		countReq := func(q Req) {
 			if q.Hdr >= 0 {
@@ -1244,7 +1295,7 @@ func main() {
 			{Op: "resume", T: 0, R: Resp{Code: 403}}, {Op: "resume", T: 0, R: redir("ext:101:1")}, {Op: "resume", T: 0}, {Op: "resume", T: 0, R: ok}}},
 		// the race the fix closes: A has read the (redirected) target, B's refresh is answered directly and installs
 		// the registry headers, then A builds and sends its request to the old location
-		{Mirrors: m1, Auth: Auth{None: true}, Script: []Resp{redir("ext:100:0")}, Ops: []Op{{Op: "spawn", Kind: "fetch", Retry: true}, {Op: "spawn", Kind: "check"},
+		{Mirrors: m1, Auth: Auth{None: true}, Storm: 7, Script: []Resp{redir("ext:100:0")}, Ops: []Op{{Op: "spawn", Kind: "fetch", Retry: true}, {Op: "spawn", Kind: "check"},
 			{Op: "resume", T: 0}, {Op: "resume", T: 1}, {Op: "resume", T: 1}, {Op: "resume", T: 1, R: Resp{Code: 403}}, {Op: "resume", T: 1, R: Resp{Code: 200, WF: true}},
 			{Op: "resume", T: 0}, {Op: "resume", T: 0, R: ok}}},
 		// first mirror fails, second redirects to the first mirror's blob URL, 400 -> single range retry; a table with a
